@@ -624,14 +624,11 @@ def r3(ctx, chk):
            key={"table": "DATE_ORDER", "construct": "default valid"}, file="dateparser_data/settings.py",
            function="settings", line=None)
     # the no-spaces parser's per-order format table covers every chart value
-    nsp = ix.func("dateparser.parser:_no_spaces_parser.__init__")
-    df = None
-    for n in iter_own_nodes(nsp.node):
-        if isinstance(n, ast.Assign) and any(isinstance(t, ast.Attribute) and t.attr == "date_formats" for t in n.targets):
-            df = n.value
-    dfk = _dict_literal_keys(df) if df is not None else None
-    if dfk is None:
+    from .util import nsp_order_table
+    tbl, nsp = nsp_order_table(ctx)
+    if tbl is None:
         raise AnalysisError(rule, "_no_spaces_parser.date_formats is not a dict literal")
+    dfk = list(tbl)
     chk.ob(rule, "_no_spaces_parser.date_formats keys == date_order_chart values", set(dfk) == set(chart.values()),
            "nsp.date_formats[order] raises KeyError for: %s" % sorted(set(chart.values()) - set(dfk)),
            key={"table": "DATE_ORDER", "construct": "nsp.date_formats covers chart values"}, file=nsp.file,
